@@ -61,7 +61,11 @@ impl<T: Qcow2IoOps> Qcow2Dev<T> {
         buf.zero_buf();
         buf[..hdr.len()].copy_from_slice(&hdr);
 
-        if let Err(err) = self.call_write(0, &buf).await {
+        let res = match self.repeat_failed_barrier().await {
+            Ok(_) => self.call_write(0, &buf).await,
+            Err(err) => Err(err),
+        };
+        if let Err(err) = res {
             rollback(h);
             return Err(err);
         }
@@ -72,7 +76,21 @@ impl<T: Qcow2IoOps> Qcow2Dev<T> {
     #[inline]
     pub(crate) async fn call_fsync(&self, offset: u64, len: usize, flags: u32) -> Qcow2Result<()> {
         log::trace!("fsync off {:x} len {} flags {}", offset, len, flags);
-        self.file.fsync(offset, len, flags).await
+        let res = self.file.fsync(offset, len, flags).await;
+        self.barrier_failed.store(res.is_err(), Ordering::Relaxed);
+        res
+    }
+
+    /// The meta data update order rests on barriers between the writes. A
+    /// barrier which failed is reported, but whoever retries finds the meta
+    /// data written before it clean and would not issue it again: repeat it
+    /// before anything else is written.
+    #[inline]
+    async fn repeat_failed_barrier(&self) -> Qcow2Result<()> {
+        if self.barrier_failed.load(Ordering::Relaxed) {
+            self.call_fsync(0, usize::MAX, 0).await?;
+        }
+        Ok(())
     }
 
     async fn load_top_table<B: Table>(&self, top: &AsyncRwLock<B>, off: u64) -> Qcow2Result<usize> {
@@ -440,6 +458,7 @@ impl<T: Qcow2IoOps> Qcow2Dev<T> {
         let buf = unsafe {
             std::slice::from_raw_parts(((t.as_ptr() as u64) + start as u64) as *const u8, size)
         };
+        self.repeat_failed_barrier().await?;
         self.call_write(off, buf).await
     }
 
